@@ -11,6 +11,7 @@ import (
 // _onBounds, and a driver main that reads requests on stdin.
 type userOpts struct {
 	bounds bool
+	pkg    string // "" = package main with the stdin driver; otherwise a library package exporting Handle
 }
 
 func goTermType(d *jDump, t jTerm) string {
@@ -66,7 +67,13 @@ func prodClasses(d *jDump) []int {
 
 func genUserGo(d *jDump, o userOpts) string {
 	var sb strings.Builder
-	sb.WriteString(userGoPrelude)
+	prelude := userGoPrelude
+	if o.pkg != "" {
+		prelude = strings.Replace(prelude, "package main", "package "+o.pkg, 1)
+		i, j := strings.Index(prelude, "//MAIN-BEGIN"), strings.Index(prelude, "//MAIN-END")
+		prelude = prelude[:i] + "var _ = bufio.NewReader\nvar _ = os.Stdin\nvar _ = time.Second\n" + prelude[j+len("//MAIN-END"):]
+	}
+	sb.WriteString(prelude)
 	cls := prodClasses(d)
 	for _, r := range d.Rules {
 		if r.Kind != "not_generated" {
@@ -257,50 +264,53 @@ func doParseText(hexInput string) string {
 	return res + "\t" + strings.Join(p.log, " ")
 }
 
+// Handle answers one request line (see the harness for the protocol).
+func Handle(line string) (res string) {
+	fields := strings.Fields(line)
+	if len(fields) == 0 {
+		return "EMPTY"
+	}
+	defer func() {
+		if e := recover(); e != nil {
+			res = "PANIC\t" + strings.ReplaceAll(fmt.Sprint(e), "\n", " ")
+		}
+	}()
+	switch fields[0] {
+	case "P":
+		return doParseTokens(fields[1:])
+	case "L":
+		h := ""
+		if len(fields) > 1 {
+			h = fields[1]
+		}
+		return doLex(h, 4*len(h)+16)
+	case "S":
+		var names []string
+		for _, f := range fields[1:] {
+			n, _ := strconv.Atoi(f)
+			names = append(names, _TokenToString(n))
+		}
+		return strings.Join(names, " ")
+	case "X":
+		h := ""
+		if len(fields) > 1 {
+			h = fields[1]
+		}
+		return doParseText(h)
+	}
+	return "BADREQ"
+}
+
+//MAIN-BEGIN
 func main() {
 	in := bufio.NewScanner(os.Stdin)
 	in.Buffer(make([]byte, 1<<20), 1<<26)
 	out := bufio.NewWriter(os.Stdout)
 	defer out.Flush()
 	for in.Scan() {
-		fields := strings.Fields(in.Text())
-		if len(fields) == 0 {
-			fmt.Fprintln(out, "EMPTY")
-			continue
-		}
+		line := in.Text()
 		done := make(chan string, 1)
-		go func() {
-			defer func() {
-				if e := recover(); e != nil {
-					done <- "PANIC\t" + strings.ReplaceAll(fmt.Sprint(e), "\n", " ")
-				}
-			}()
-			switch fields[0] {
-			case "P":
-				done <- doParseTokens(fields[1:])
-			case "L":
-				h := ""
-				if len(fields) > 1 {
-					h = fields[1]
-				}
-				done <- doLex(h, 4*len(h)+16)
-			case "S":
-				var names []string
-				for _, f := range fields[1:] {
-					n, _ := strconv.Atoi(f)
-					names = append(names, _TokenToString(n))
-				}
-				done <- strings.Join(names, " ")
-			case "X":
-				h := ""
-				if len(fields) > 1 {
-					h = fields[1]
-				}
-				done <- doParseText(h)
-			default:
-				done <- "BADREQ"
-			}
-		}()
+		go func() { done <- Handle(line) }()
 		select {
 		case r := <-done:
 			fmt.Fprintln(out, r)
@@ -311,5 +321,6 @@ func main() {
 		}
 	}
 }
+//MAIN-END
 
 `
